@@ -307,7 +307,11 @@ async def async_setup_entry(hass: HomeAssistant, config_entry: ConfigEntry) -> b
         await install_requirements(hass, config_entry, pyscript_folder)
         await load_scripts(hass, config_entry.data, global_ctx_only=global_ctx_only)
 
-        start_global_contexts(global_ctx_only=global_ctx_only)
+        #
+        # reloading one global context can also reload the files that depend on it, so start
+        # all of them (this does nothing for contexts that are already running)
+        #
+        start_global_contexts()
 
     hass.services.async_register(DOMAIN, SERVICE_RELOAD, reload_scripts_handler)
 
